@@ -1,4 +1,5 @@
 import NbioVerif.Lemmas.DeadlineSteps
+import NbioVerif.Lemmas.DeadlineSpecAgree
 /-!
 # C16 — deadlines fire on time, never early, can be renewed or cleared; no stale timer
 
@@ -12,6 +13,22 @@ Go timer semantics (`time.AfterFunc`, `Reset`, `Stop`) are *modelled* (see the m
 namespace Deadline
 
 /-! ## the property theorems -/
+
+/-- **The model's "deadline in force" is the property's.** `specRun` (Model/DeadlineSpec.lean) computes the deadline
+    in force from the operation list alone, in the property's words (set/renew, clear, a write or flush that empties
+    the backlog, close), knowing nothing of timer handles, runtime timers or callbacks. For every history in which no
+    timer has closed the connection, the model's ghost field `f` — written by the same helpers as the code-level
+    fields — coincides with it (as do clock, `closed` and, while open, the backlog). So the "in force" the other
+    theorems speak about is not an artefact of the helpers. -/
+theorem c16_force_is_spec (ops : List Op) :
+    let s := run fixed init ops
+    let t := specRun {} ops
+    (∀ d, s.cause ≠ some (.timeout d)) →
+      (s.t .r).f = t.fr ∧ (s.t .w).f = t.fw ∧ s.closed = t.closed ∧ s.now = t.now ∧
+        (s.closed = false → s.backlog = t.backlog) := by
+  intro s t hnt
+  have h := agree_run ops init {} inv_init agree_init hnt
+  exact ⟨h.fr, h.fw, h.closed, h.now, h.backlog⟩
 
 /-- **Never early, and only for the deadline in force.** Whatever the interleaving of Set*Deadline calls, writes,
     flushes, closes, ticks, timer firings and callbacks: if the connection was closed with the read (write) timeout
@@ -156,6 +173,135 @@ theorem c16_due_is_enabled (ops : List Op) (d : Dir) (w : Nat) :
     · simp [closeWith, hc, stop]
     · simp [closeWith, hc, stop, hrd]
 
+/-- **A deadline that is not renewed closes the connection with its timeout error.** In every reachable open state
+    in which `d`'s timer is armed for a deadline that has been reached: the runtime's `fire` is enabled, and the
+    callback it starts — run before anything else touches the connection — closes it with `d`'s timeout error.
+    (That both happen within a bounded real time is Go's timer contract, measured by `c16-missed`.) -/
+theorem c16_fire_then_cb_closes (ops : List Op) (d : Dir) (w : Nat) :
+    let s := run fixed init ops
+    s.closed = false → (s.t d).a = some w → w ≤ s.now →
+      ∃ s₁ s₂, step fixed s (.fire d) = some s₁ ∧ step fixed s₁ (.cb s.pend.length) = some s₂ ∧
+        s₂.closed = true ∧ s₂.cause = some (.timeout d) := by
+  intro s hc ha hw
+  let r : Rec := { dir := d, when := w, tFire := s.now, inForce := (s.t d).f }
+  let s₁ : St := (s.setT d { s.t d with a := none }).withPend (s.pend ++ [r])
+  have h1 : step fixed s (.fire d) = some s₁ := by simp [step, stepFire, ha, hw, s₁, r]
+  have hget : s₁.pend[s.pend.length]? = some r := by
+    simp only [s₁, withPend_pend]
+    rw [List.getElem?_append_right (Nat.le_refl _)]
+    simp
+  have hc₁ : s₁.closed = false := by simp [s₁, hc]
+  refine ⟨s₁, closeWith (s₁.withPend (s₁.pend.eraseIdx s.pend.length)) (.timeout r.dir) (some r), h1, ?_, ?_, ?_⟩
+  · simp only [step, stepCb, hget]
+  · simp [closeWith, hc₁, stop]
+  · simp [closeWith, hc₁, stop, r]
+
+/-- "the deadline in force for `d` has not been reached": hypothesis of the next lemma, per prefix of the history -/
+def notDue (d : Dir) (s : St) : Prop := ∀ w, (s.t d).f = some w → s.now < w
+
+/-- along `os` from `s`, after every step the deadline in force for `d` is still ahead -/
+def NeverDue (d : Dir) : St → List Op → Prop
+  | _, [] => True
+  | s, o :: os => match step fixed s o with
+    | some s' => notDue d s' ∧ NeverDue d s' os
+    | none => NeverDue d s os
+
+/-- **No callback before the first expiry.** If along a history the deadline in force for `d` was never reached (each
+    renewal or clear came before expiry) and the connection is still open, no callback of `d` has been started — the
+    hypothesis of `c16_renew_postpones` and `c16_no_stale`, derived instead of assumed. -/
+theorem c16_no_callback_before_first_expiry (d : Dir) (os : List Op) :
+    ∀ (s : St), Inv s → notDue d s → (∀ r ∈ s.pend, r.dir ≠ d) → NeverDue d s os →
+      (run fixed s os).closed = false → ∀ r ∈ (run fixed s os).pend, r.dir ≠ d := by
+  induction os with
+  | nil => intro s _ _ hp _ _; exact hp
+  | cons o os ih =>
+    intro s hi hnd hp hnev hopen
+    simp only [run] at hopen ⊢
+    simp only [NeverDue] at hnev
+    cases hs : step fixed s o with
+    | none => simp only [hs] at hnev hopen ⊢; exact ih s hi hnd hp hnev hopen
+    | some s' =>
+      simp only [hs] at hnev hopen ⊢
+      have hi' := inv_step hi hs
+      -- the connection was open before the step too (closed is final)
+      have hc : s.closed = false := by
+        cases hq : s.closed with
+        | false => rfl
+        | true =>
+          have h1 := (step_closed_stable hs hq).1
+          have h2 := (run_closed_stable (g := fixed) os h1).1
+          rw [h2] at hopen; cases hopen
+      refine ih s' hi' hnev.1 ?_ hnev.2 hopen
+      -- the step adds no record of `d`: only `fire d` could, and `d`'s timer is not due
+      intro r hr
+      cases o with
+      | fire d' =>
+        simp only [step, stepFire] at hs
+        split at hs
+        · rename_i w ha
+          split at hs
+          · rename_i hw
+            cases hs
+            simp only [withPend_pend] at hr
+            rcases List.mem_append.mp hr with hr | hr
+            · exact hp r hr
+            · have := List.mem_singleton.mp hr
+              subst this
+              intro he
+              simp only at he
+              subst he
+              have hf := hi.armed hc d' w ha
+              have := hnd w hf
+              omega
+          · cases hs
+        · cases hs
+      | cb i =>
+        simp only [step, stepCb] at hs
+        split at hs
+        · cases hs
+          have hsub : r ∈ s.pend := by
+            unfold closeWith at hr
+            split at hr
+            · exact List.mem_of_mem_eraseIdx (by simpa using hr)
+            · exact List.mem_of_mem_eraseIdx (by simpa [stop] using hr)
+          exact hp r hsub
+        · cases hs
+      | set d' t => simp only [step] at hs; cases hs; split at hr <;> first | exact hp r hr | exact hp r (by simpa [arm] using hr)
+      | clear d' => simp only [step] at hs; cases hs; split at hr <;> first | exact hp r hr | exact hp r (by simpa [stop] using hr)
+      | setBoth t => simp only [step] at hs; cases hs; split at hr <;> first | exact hp r hr | exact hp r (by simpa [arm] using hr)
+      | clearBoth => simp only [step] at hs; cases hs; split at hr <;> first | exact hp r hr | exact hp r (by simpa [stop] using hr)
+      | ka n => simp only [step] at hs; cases hs; split at hr <;> first | exact hp r hr | exact hp r (by simpa [arm] using hr)
+      | wto n => simp only [step] at hs; cases hs; split at hr <;> first | exact hp r hr | exact hp r (by simpa [arm] using hr)
+      | dial n => simp only [step] at hs; cases hs; split at hr <;> first | exact hp r hr | exact hp r (by simpa [arm] using hr)
+      | connected => simp only [step] at hs; cases hs; split at hr <;> first | exact hp r hr | exact hp r (by simpa [stop] using hr)
+      | tick n => simp only [step] at hs; cases hs; exact hp r (by simpa using hr)
+      | close =>
+        simp only [step] at hs; cases hs
+        unfold closeWith at hr
+        split at hr
+        · exact hp r hr
+        · exact hp r (by simpa [stop] using hr)
+      | write k =>
+        simp only [step] at hs; cases hs
+        have : (stepWrite s k).pend = s.pend := by
+          unfold stepWrite
+          split
+          · rfl
+          · split
+            · cases k <;> simp [errClose, unforce]
+            · cases k <;> simp [errClose, unforce, stop]
+        rw [this] at hr; exact hp r hr
+      | flush k =>
+        simp only [step] at hs; cases hs
+        have : (stepFlush fixed s k).pend = s.pend := by
+          unfold stepFlush
+          split
+          · rfl
+          · split
+            · rfl
+            · cases k <;> simp [errClose, unforce, stop, fixed]
+        rw [this] at hr; exact hp r hr
+
 /-- **Defect #20 on the pinned tree** (`flush()` does not stop the write timer): write deadline 10, a write that
     leaves a backlog, the poller drains it, nothing else happens — at tick 10 the stale timer closes the idle,
     fully flushed connection with the write-timeout error although no write deadline is in force. -/
@@ -175,6 +321,8 @@ example :
 
 /-- a read deadline that is not renewed closes with the read-timeout error at its tick -/
 example : (run fixed init [.set .r 5, .tick 5, .fire .r, .cb 0]).cause = some (.timeout .r) := by decide
+/-- the independent fold on the defect-#20 history: after the draining flush no write deadline is in force -/
+example : (specRun {} [.set .w 10, .write .short, .flush .full, .tick 10]).fw = none := by decide
 /-- it cannot fire a tick earlier (`fire` is skipped as disabled) -/
 example : (run fixed init [.set .r 5, .tick 4, .fire .r, .cb 0]).closed = false := by decide
 /-- renewal before expiry postpones; the renewed deadline then fires -/
